@@ -242,7 +242,13 @@ func (l *leafDef) lit(v value) string {
 	case kDur:
 		return strconv.Quote(v.d.String())
 	case kFloat:
-		return strconv.FormatFloat(v.f, 'f', -1, 64)
+		// always a float literal ("0" is an integer in TOML, and go-toml
+		// does not convert it)
+		s := strconv.FormatFloat(v.f, 'f', -1, 64)
+		if !strings.Contains(s, ".") {
+			s += ".0"
+		}
+		return s
 	case kSet, kSlice:
 		qs := make([]string, len(v.elems))
 		for i, e := range v.elems {
